@@ -119,12 +119,13 @@ def run(ctx):
             texts.append(D.to_text(random_json(rng), rng))
         elif r < 0.75:
             # near-miss: a valid document damaged at the text level
-            nodes = G.SchemaGen(rng, max_nodes=rng.choice([2, 6, 12]), max_depth=3, namespaces=("", "a")).build()
+            nodes = G.SchemaGen(rng, max_nodes=rng.choice([2, 6, 12]), max_depth=3,
+                                namespaces=rng.choice([("", "a"), ("", "a"), ("org.\u00e9t\u00e9", "\u540d.\u524d", "a"), ("\u00e9", "x.\u00e9\u00e9.y\u00e9")])).build()
             try:
                 t = D.to_text(D.DocGen(rng, nodes).gen(0, None), rng)
             except D.Unspellable:
                 continue
-            for _ in range(rng.randint(0, 2)):
+            for _ in range(rng.choice([0, 0, 1, 2])):
                 i = rng.randrange(len(t) + 1)
                 c = rng.random()
                 if c < 0.4 and t:
